@@ -61,6 +61,7 @@ import Osmium.Lemmas.AreaOrder
 import Osmium.Lemmas.AreaList
 import Osmium.Lemmas.AreaSplit
 import Osmium.Lemmas.AreaRing7
+import Osmium.Lemmas.SrcTie
 
 namespace Osmium.Area.C10
 
@@ -771,5 +772,151 @@ def tieExpected : MP :=
 
 example : Valid tieInput tieProduced = false ∧ (judge tieInput tieProduced).innerInOuter = false := by decide
 example : Valid tieInput tieExpected = true := by decide
+
+/-! ### source ties (tools/cxx2lean.py): the functions REGENERATED from /repo's C++ source on every run
+    (Osmium/Generated/Src.lean) equal the hand-written model functions the theorems above are about.
+    `SrcTie.segOfSrc` reads the two locations of the translated `NodeRefSegment` record, `vecOfLoc` / `vecOfSrc`
+    the two coordinates of a `Location` / `vec`.  The translated arithmetic is exact `Int` arithmetic with the
+    int64 no-overflow side condition in `*_defined`; `src_defined_*` discharge it on the property's domain ±2^29. -/
+
+section SrcTies
+open Osmium.Generated Osmium.CxxSem Osmium.SrcTie
+
+/-- `Location::valid()` = `Vec.valid` -/
+theorem src_tie_location_valid (l : Src.Location.Location) :
+    Src.Location.Location.valid l = (vecOfLoc l).valid := by
+  dsimp only [Vec.valid, vecOfLoc]
+  rw [Bool.eq_iff_iff]
+  simp [Src.Location.Location.valid, Src.Location.Location.precision, Src.Location.coordinate_precision] <;> omega
+
+/-- `operator<(Location, Location)` = `Vec.lt`, `operator==` = structural equality, `Location()` = `undefinedLoc` -/
+theorem src_tie_location_lt (a b : Src.Location.Location) :
+    Src.Location.op_lt_Location_Location a b = (vecOfLoc a).lt (vecOfLoc b) ∧
+    (Src.Location.op_eq_Location_Location a b = true ↔ vecOfLoc a = vecOfLoc b) ∧
+    vecOfLoc Src.Location.Location.ctor = undefinedLoc := by
+  refine ⟨?_, ?_, by decide⟩
+  · dsimp only [Vec.lt, vecOfLoc]
+    rw [Bool.eq_iff_iff]
+    simp [Src.Location.op_lt_Location_Location, Src.Location.Location.x, Src.Location.Location.y]
+  · simp [Src.Location.op_eq_Location_Location, Src.Location.Location.x, Src.Location.Location.y, vecOfLoc]
+
+/-- `outside_x_range(s1, s2)` -/
+theorem src_tie_outside_x_range (s1 s2 : Src.NodeRefSegment.NodeRefSegment) :
+    Src.NodeRefSegment.outside_x_range s1 s2 = (segOfSrc s1).outsideXRange (segOfSrc s2) := by
+  dsimp only [Seg.outsideXRange, segOfSrc, vecOfLoc]
+  rw [Bool.eq_iff_iff]
+  simp [Src.NodeRefSegment.outside_x_range, Src.NodeRefSegment.NodeRefSegment.first,
+    Src.NodeRefSegment.NodeRefSegment.second, Src.NodeRef.NodeRef.location, Src.Location.Location.x]
+
+/-- `y_range_overlap(s1, s2)` (the two `std::minmax` pairs) -/
+theorem src_tie_y_range_overlap (s1 s2 : Src.NodeRefSegment.NodeRefSegment) :
+    Src.NodeRefSegment.y_range_overlap s1 s2 = (segOfSrc s1).yRangeOverlap (segOfSrc s2) := by
+  dsimp only [Seg.yRangeOverlap, segOfSrc, vecOfLoc]
+  rw [Bool.eq_iff_iff]
+  simp [Src.NodeRefSegment.y_range_overlap, Src.NodeRefSegment.NodeRefSegment.first,
+    Src.NodeRefSegment.NodeRefSegment.second, Src.NodeRef.NodeRef.location, Src.Location.Location.y] <;> omega
+
+/-- `operator<(NodeRefSegment, NodeRefSegment)` = `Seg.lt` (for all coordinates: the model computes in `Int`) -/
+theorem src_tie_segment_lt (l r : Src.NodeRefSegment.NodeRefSegment) :
+    Src.NodeRefSegment.op_lt_NodeRefSegment_NodeRefSegment l r = (segOfSrc l).lt (segOfSrc r) := by
+  dsimp only [Seg.lt, segOfSrc, vecOfLoc, Vec.sub, Vec.lt]
+  dsimp only [Src.NodeRefSegment.op_lt_NodeRefSegment_NodeRefSegment, Src.Location.op_eq_Location_Location,
+    Src.Location.op_lt_Location_Location, Src.NodeRefSegment.NodeRefSegment.first, Src.NodeRefSegment.NodeRefSegment.second,
+    Src.NodeRef.NodeRef.location, Src.Location.Location.x, Src.Location.Location.y, Src.Vector.vec.ctor_Location,
+    Src.Vector.op_sub_vec_vec, Src.Vector.vec.ctor_i64_i64]
+  rw [Bool.eq_iff_iff]
+  by_cases h1 : l.m_first.m_location.m_x = r.m_first.m_location.m_x <;>
+  by_cases h2 : l.m_first.m_location.m_y = r.m_first.m_location.m_y <;>
+  simp [h1, h2]
+  all_goals ((repeat' split) <;> first | rfl | omega | (exfalso; omega))
+
+/-- `calculate_intersection(s1, s2)`: the model's decision tree is the one assembled from the translated pieces —
+    the conditions of its first five `if`s and the initialisers of `pd`, `d`, `na`, `nb` (the floating-point
+    intersection point and the `std::sort` of the collinear case are outside the translated subset) -/
+theorem src_tie_calculate_intersection (p0 p1 q0 q1 : Src.Vector.vec) :
+    Seg.intersectCase ⟨vecOfSrc p0, vecOfSrc p1⟩ ⟨vecOfSrc q0, vecOfSrc q1⟩ =
+      if Src.NodeRefSegment.calculate_intersection_cond_same p0 p1 q0 q1 then IsectCase.same
+      else
+        let pd := Src.NodeRefSegment.calculate_intersection_pd p0 p1
+        let d := Src.NodeRefSegment.calculate_intersection_d q0 q1 pd
+        if Src.NodeRefSegment.calculate_intersection_cond_not_collinear d then
+          if Src.NodeRefSegment.calculate_intersection_cond_touch p0 p1 q0 q1 then IsectCase.endpointTouch
+          else if Src.NodeRefSegment.calculate_intersection_cond_cross d
+              (Src.NodeRefSegment.calculate_intersection_na p0 q0 q1)
+              (Src.NodeRefSegment.calculate_intersection_nb p0 p1 q0) then IsectCase.cross
+          else IsectCase.miss
+        else if Src.NodeRefSegment.calculate_intersection_cond_same_line p0 q0 pd then
+          collinearCase (vecOfSrc p0) (vecOfSrc p1) (vecOfSrc q0) (vecOfSrc q1)
+        else IsectCase.parallel := by
+  obtain ⟨a0, b0⟩ := p0; obtain ⟨a1, b1⟩ := p1; obtain ⟨c0, d0⟩ := q0; obtain ⟨c1, d1⟩ := q1
+  dsimp only [Seg.intersectCase, vecOfSrc, Vec.sub, Vec.cross]
+  dsimp only [Src.NodeRefSegment.calculate_intersection_cond_same, Src.NodeRefSegment.calculate_intersection_pd,
+    Src.NodeRefSegment.calculate_intersection_d, Src.NodeRefSegment.calculate_intersection_cond_not_collinear,
+    Src.NodeRefSegment.calculate_intersection_cond_touch, Src.NodeRefSegment.calculate_intersection_cond_cross,
+    Src.NodeRefSegment.calculate_intersection_na, Src.NodeRefSegment.calculate_intersection_nb,
+    Src.NodeRefSegment.calculate_intersection_cond_same_line, Src.Vector.op_eq_vec_vec, Src.Vector.op_sub_vec_vec,
+    Src.Vector.op_mul_vec_vec, Src.Vector.vec.ctor_i64_i64]
+  simp [CxxSem.eq, CxxSem.ne, CxxSem.lt, CxxSem.le, CxxSem.gt, CxxSem.ge]
+
+/-- no int64 overflow in any translated piece of `calculate_intersection` for coordinates within ±2^29 -/
+theorem src_defined_calculate_intersection (p0 p1 q0 q1 : Src.Vector.vec)
+    (h0 : (vecOfSrc p0).inRange = true) (h1 : (vecOfSrc p1).inRange = true)
+    (h2 : (vecOfSrc q0).inRange = true) (h3 : (vecOfSrc q1).inRange = true) :
+    Src.NodeRefSegment.calculate_intersection_pd_defined p0 p1 = true ∧
+    Src.NodeRefSegment.calculate_intersection_d_defined q0 q1 (Src.NodeRefSegment.calculate_intersection_pd p0 p1) = true ∧
+    Src.NodeRefSegment.calculate_intersection_na_defined p0 q0 q1 = true ∧
+    Src.NodeRefSegment.calculate_intersection_nb_defined p0 p1 q0 = true ∧
+    Src.NodeRefSegment.calculate_intersection_cond_same_line_defined p0 q0 (Src.NodeRefSegment.calculate_intersection_pd p0 p1) = true := by
+  have b0 := inRange_bounds _ h0
+  have b1 := inRange_bounds _ h1
+  have b2 := inRange_bounds _ h2
+  have b3 := inRange_bounds _ h3
+  obtain ⟨a0, b0'⟩ := p0; obtain ⟨a1, b1'⟩ := p1; obtain ⟨c0, d0⟩ := q0; obtain ⟨c1, d1⟩ := q1
+  dsimp only [vecOfSrc] at b0 b1 b2 b3
+  have m1 := mul_bound (a1 - a0) (d1 - d0) (by omega) (by omega)
+  have m2 := mul_bound (b1' - b0') (c1 - c0) (by omega) (by omega)
+  have m3 := mul_bound (c1 - c0) (b0' - d0) (by omega) (by omega)
+  have m4 := mul_bound (d1 - d0) (a0 - c0) (by omega) (by omega)
+  have m5 := mul_bound (a1 - a0) (b0' - d0) (by omega) (by omega)
+  have m6 := mul_bound (b1' - b0') (a0 - c0) (by omega) (by omega)
+  have m7 := mul_bound (a1 - a0) (d0 - b0') (by omega) (by omega)
+  have m8 := mul_bound (b1' - b0') (c0 - a0) (by omega) (by omega)
+  simp only [Src.NodeRefSegment.calculate_intersection_pd_defined, Src.NodeRefSegment.calculate_intersection_d_defined,
+    Src.NodeRefSegment.calculate_intersection_na_defined, Src.NodeRefSegment.calculate_intersection_nb_defined,
+    Src.NodeRefSegment.calculate_intersection_cond_same_line_defined, Src.NodeRefSegment.calculate_intersection_pd,
+    Src.Vector.op_sub_vec_vec_defined, Src.Vector.op_mul_vec_vec_defined, Src.Vector.op_sub_vec_vec, Src.Vector.vec.ctor_i64_i64,
+    Bool.and_eq_true, inS_iff]
+  omega
+
+/-- no int64 overflow in `operator<(NodeRefSegment, NodeRefSegment)` for coordinates within ±2^29 -/
+theorem src_defined_segment_lt (l r : Src.NodeRefSegment.NodeRefSegment)
+    (h0 : (segOfSrc l).first.inRange = true) (h1 : (segOfSrc l).second.inRange = true)
+    (h2 : (segOfSrc r).first.inRange = true) (h3 : (segOfSrc r).second.inRange = true) :
+    Src.NodeRefSegment.op_lt_NodeRefSegment_NodeRefSegment_defined l r = true := by
+  have b0 := inRange_bounds _ h0
+  have b1 := inRange_bounds _ h1
+  have b2 := inRange_bounds _ h2
+  have b3 := inRange_bounds _ h3
+  dsimp only [segOfSrc, vecOfLoc] at b0 b1 b2 b3
+  have m1 := mul_bound (l.m_second.m_location.m_y - l.m_first.m_location.m_y) (r.m_second.m_location.m_x - r.m_first.m_location.m_x)
+    (by omega) (by omega)
+  have m2 := mul_bound (r.m_second.m_location.m_y - r.m_first.m_location.m_y) (l.m_second.m_location.m_x - l.m_first.m_location.m_x)
+    (by omega) (by omega)
+  dsimp only [Src.NodeRefSegment.op_lt_NodeRefSegment_NodeRefSegment_defined, Src.NodeRefSegment.NodeRefSegment.first,
+    Src.NodeRefSegment.NodeRefSegment.second, Src.NodeRef.NodeRef.location, Src.Vector.vec.ctor_Location, Src.Location.Location.x,
+    Src.Location.Location.y, Src.Vector.op_sub_vec_vec_defined, Src.Vector.op_sub_vec_vec, Src.Vector.vec.ctor_i64_i64]
+  have i1 : inS 64 (l.m_second.m_location.m_x - l.m_first.m_location.m_x) = true := inS_iff.mpr (by omega)
+  have i2 : inS 64 (l.m_second.m_location.m_y - l.m_first.m_location.m_y) = true := inS_iff.mpr (by omega)
+  have i3 : inS 64 (r.m_second.m_location.m_x - r.m_first.m_location.m_x) = true := inS_iff.mpr (by omega)
+  have i4 : inS 64 (r.m_second.m_location.m_y - r.m_first.m_location.m_y) = true := inS_iff.mpr (by omega)
+  have i5 : inS 64 ((l.m_second.m_location.m_y - l.m_first.m_location.m_y) *
+      (r.m_second.m_location.m_x - r.m_first.m_location.m_x)) = true := inS_iff.mpr (by omega)
+  have i6 : inS 64 ((r.m_second.m_location.m_y - r.m_first.m_location.m_y) *
+      (l.m_second.m_location.m_x - l.m_first.m_location.m_x)) = true := inS_iff.mpr (by omega)
+  simp [i1, i2, i3, i4, i5, i6]
+
+example : (vecOfSrc ⟨536870912, -536870912⟩).inRange = true := by decide
+
+end SrcTies
 
 end Osmium.Area.C10
